@@ -77,14 +77,26 @@ def letter_flag_glued_to_account(v: core.Violation, sess: Any, op: Optional[dict
 
 
 def blank_line_after_list_replacement(v: core.Violation, sess: Any, op: Optional[dict]) -> bool:
-    """A whole comment-interleaving list was assigned while its placeholder sat behind the separating
-    newline, and the document now has an empty line in front of an indented line."""
-    if sess is None or not getattr(sess, 'wrapper_assigned_behind_newline', False):
+    """Inside an entry's block: newline, the zero-width placeholder of a list, newline, indented line - the
+    list's first item(s) were replaced while its placeholder sat behind the separating newline."""
+    if sess is None:
         return False
-    toks = [t for t in sess.root.token_store if t.raw_text]
-    for a, b, c in zip(toks, toks[1:], toks[2:]):
-        if isinstance(a, models.Newline) and isinstance(b, models.Newline) and (
-                isinstance(c, models.Indent) or (isinstance(c, models.BlockComment) and c.indent)):
+    toks = list(sess.root.token_store)
+    n = len(toks)
+    for i, a in enumerate(toks):
+        if not isinstance(a, models.Newline):
+            continue
+        j = i + 1
+        seen_placeholder = False
+        while j < n and not toks[j].raw_text:
+            seen_placeholder = seen_placeholder or isinstance(toks[j], I.internal.Placeholder)
+            j += 1
+        if not seen_placeholder or j >= n or not isinstance(toks[j], models.Newline):
+            continue
+        k = j + 1
+        while k < n and not toks[k].raw_text:
+            k += 1
+        if k < n and (isinstance(toks[k], models.Indent) or (isinstance(toks[k], models.BlockComment) and toks[k].indent)):
             return True
     return False
 
